@@ -270,11 +270,10 @@ Fixpoint put_indexed_map (m : amap) (idx : list value) (v : value) : pres :=
           | Some _ =>
               (* existing non-collection: overwritten by an empty map when the next index is a string,
                  by an array when it is an int *)
+              (* the pinned tree overwrites the stored Mlrval IN PLACE (mv is assigned a fresh empty map through its pointer), which is visible through
+                 every alias of that scalar (locals bind scalars by reference): outside the modelled fragment *)
               match k2 with
-              | VStr (_ :: _) => match put_indexed_map [] rest v with
-                                 | POk sub => POk (mput ks (VMap sub) m)
-                                 | e => e
-                                 end
+              | VStr (_ :: _) => PUnsup
               | VInt _ => PUnsup
               | _ => PErr
               end
@@ -287,7 +286,7 @@ Definition put_indexed_value (base : value) (idx : list value) (v : value) : pre
   match base with
   | VMap m => put_indexed_map m idx v
   | _ => match idx with
-         | VStr (_ :: _) :: _ => put_indexed_map [] idx v
+         | VStr (_ :: _) :: _ => PUnsup      (* in-place overwrite of a scalar by a map: see put_indexed_map *)
          | VInt _ :: _ => PUnsup
          | _ => PErr
          end
